@@ -10,9 +10,11 @@
 // LockSet/Model.v, theorems granted_excludes / test_sound): during a round the
 // table only grows (no unlock runs), so in every sequential order of the
 // requests
-//   (a) two granted requests of different owners never conflict,
-//   (b) every denied request conflicts with some granted request of another owner,
-//   (c) the request linearized first is granted: at least one grant per round.
+//
+//	(a) two granted requests of different owners never conflict,
+//	(b) every denied request conflicts with some granted request of another owner,
+//	(c) the request linearized first is granted: at least one grant per round.
+//
 // A round whose results break (a), (b) or (c) has no sequential explanation.
 //
 // Half of the rounds line the requests up behind the mutex guarding the table
@@ -140,6 +142,7 @@ func judge(reqs []request, granted []bool) string {
 func main() {
 	rounds := flag.Int("rounds", 4000, "maximum number of rounds")
 	budget := flag.Float64("budget", 20, "seconds")
+	maxn := flag.Int("maxn", 4, "maximum number of simultaneous requests per round")
 	seed := flag.Uint64("seed", 20260923, "seed")
 	flag.Parse()
 
@@ -152,7 +155,7 @@ func main() {
 	t0 := time.Now()
 	res := result{Seed: *seed, Gate: gateName}
 	for round := 0; round < *rounds && time.Since(t0).Seconds() < *budget; round++ {
-		n := 2 + r.Intn(3)
+		n := 2 + r.Intn(*maxn-1)
 		reqs := make([]request, n)
 		owners := make([]*nfsv4.LockOwner4, n)
 		for i := range reqs {
@@ -183,6 +186,13 @@ func main() {
 		close(start)
 		if lined {
 			time.Sleep(3 * time.Millisecond)
+			// Release and take the gate again at once: the woken waiter, which has waited for more
+			// than a millisecond, finds it taken and puts the mutex into starvation mode, so that
+			// from here on every Unlock hands the mutex to the next queued request in FIFO order
+			// and a request that unlocks and re-locks in mid-section goes to the back of the queue.
+			gate.Unlock()
+			gate.Lock()
+			time.Sleep(200 * time.Microsecond)
 			gate.Unlock()
 		}
 		done := make(chan struct{})
